@@ -92,6 +92,12 @@ class BundleContainer(object):
                 pri.fragment_offset,
                 pri.total_app_data_len,
             ]
+            # fragments are distinguished by their own payload length also
+            pyld_data = None
+            for blk in self.bundle.getfieldval('blocks'):
+                if blk.getfieldval('type_code') == Bundle.BLOCK_TYPE_PAYLOAD:
+                    pyld_data = blk.getfieldval('btsd')
+            ident.append(len(pyld_data) if pyld_data is not None else None)
         return tuple(ident)
 
     def _block_types(self, key: BlockType) -> List[CanonicalBlock]:
